@@ -207,6 +207,24 @@ def encode(v):
     raise TypeError(type(v))
 
 
+def encode_ordered(v):
+    """Encoder that keeps dictionary insertion order (valid bencoding, not necessarily
+    canonical) - for foreign metafiles whose keys are not sorted."""
+    if isinstance(v, bool):
+        raise TypeError("bool")
+    if isinstance(v, int):
+        return b"i%de" % v
+    if isinstance(v, str):
+        v = v.encode("utf8")
+    if isinstance(v, (bytes, bytearray)):
+        return b"%d:" % len(v) + bytes(v)
+    if isinstance(v, (list, tuple)):
+        return b"l" + b"".join(encode_ordered(x) for x in v) + b"e"
+    if isinstance(v, dict):
+        return b"d" + b"".join(encode_ordered(k) + encode_ordered(x) for k, x in v.items()) + b"e"
+    raise TypeError(type(v))
+
+
 # ----------------------------------------------------------------------------- metafiles
 
 def ref_metafile(name, files, pl, version, single=False, trailing_pad=False,
